@@ -34,3 +34,22 @@ Theorem C10_table_reg : forall O P c r, verify_reg_rec O P c = Ok r ->
   vr_uv r = flag f 2 /\ vr_multi_device r = flag f 3 /\ vr_backed_up r = flag f 4.
 Proof. exact reg_flag_table. Qed.
 Print Assumptions C10_table_reg.
+
+(* the client hints that travel next to a response (authenticatorAttachment, transports, user handle) have no influence on acceptance
+   or on ANY reported field: verification is a function of the other members only *)
+Theorem C10_hints_irrelevant_reg : forall O P c att tr,
+  verify_reg_rec O P c =
+  verify_reg_rec O P {| rcr_id := rcr_id c; rcr_raw_id := rcr_raw_id c; rcr_type := rcr_type c; rcr_client_data := rcr_client_data c;
+                        rcr_att_obj := rcr_att_obj c; rcr_transports := tr; rcr_attachment := att |}.
+Proof. intros. reflexivity. Qed.
+Print Assumptions C10_hints_irrelevant_reg.
+
+Theorem C10_hints_irrelevant_auth : forall O P c att uh,
+  verify_auth_rec O P c =
+  verify_auth_rec O P {| acr_id := acr_id c; acr_raw_id := acr_raw_id c; acr_type := acr_type c; acr_client_data := acr_client_data c;
+                         acr_auth_data := acr_auth_data c; acr_signature := acr_signature c; acr_user_handle := uh; acr_attachment := att |}.
+Proof. intros. reflexivity. Qed.
+Print Assumptions C10_hints_irrelevant_auth.
+
+(* the extension data that may follow (ED) never sets a flag: the reported user_verified is bit 2 of the flags byte whatever the extensions say
+   (a `uvm` output, for instance) - both tables above are stated over the flags byte alone and hold for EVERY authenticator data *)
